@@ -26,6 +26,7 @@ const (
 	secp256k1Crv  = "secp256k1"
 	secp256k1Kty  = "EC"
 	secp256k1Size = 32
+	okpKty        = "OKP"
 	bitsPerByte   = 8
 )
 
@@ -86,6 +87,12 @@ func (j *JWK) UnmarshalJSON(jwkBytes []byte) error {
 
 		*j = *jwk
 	} else {
+		// go-jose copies the x value of an OKP (Ed25519) key into a fixed-size buffer: a longer value would be
+		// silently truncated and a shorter one zero-padded, so the length is checked here
+		if key.Kty == okpKty && (key.X == nil || len(key.X.data) != ed25519.PublicKeySize) {
+			return fmt.Errorf("unable to read JWK: %w", ErrInvalidKey)
+		}
+
 		var joseJWK jose.JSONWebKey
 
 		err := json.Unmarshal(jwkBytes, &joseJWK)
